@@ -24,4 +24,7 @@ MUTANTS = [
     Mutant('scalar_name', M + 'statement/feature/lagtime.py', edit_node('LagTime.__sub__', lambda n, seg: isinstance(n, ast.Tuple) and seg == "(Name('OFF'),)", lambda seg: "(Name('OFF'))", 0), 'G7', 'not a tuple'),
     Mutant('foreign_mode', M + 'statement/feature/elimination.py', edit_node('Elimination.__sub__', lambda n, seg: isinstance(n, ast.Constant) and seg == "'FO'", lambda seg: "'INST'", 0), 'G7', 'mode of another alphabet'),
     Mutant('optional_child_indexed', M + 'statement/feature/allometry.py', edit_node('AllometryInterpreter.interpret', lambda n, seg: isinstance(n, ast.Return), lambda seg: 'return Allometry(covariate=children[0], reference=children[1])'), 'G8', 'optional child indexed'),
+    Mutant('subset_covariate_typo', 'src/pharmpy/tools/mfl/parse.py', text_edit("self._subset_covariates(mfl, model)", "self._subset_covariate(mfl, model)"), 'Y0', 'method that does not exist (regression of 5add02f)'),
+    Mutant('contain_subset_falls_off', 'src/pharmpy/tools/mfl/parse.py', edit_node('ModelFeatures.contain_subset', lambda n, seg: isinstance(n, ast.Return) and seg == 'return True', lambda seg: 'pass', -1), 'G21', 'no answer on the path without covariates (regression of 5add02f)'),
+    Mutant('product_appended', 'src/pharmpy/tools/mfl/parse.py', text_edit("lhs[(effect, op)].extend(product(", "lhs[(effect, op)].append(product("), 'Y0', 'iterator objects searched by identity (regression of 5add02f)'),
 ]
